@@ -81,6 +81,24 @@ def gen_cases(rng, tier):
         yield {'op': 'history', 'cls': cls, 'bits': bits, 'pos': rng.choice([0, 0, n, rng.randrange(0, n + 1)]),
                'steps': [gen_step(rng, max(n, 4), cls == 'BitStream') for _ in range(rng.randrange(3, 26))]}
 
+    # exp-Golomb codes cut short by one to three bits at the end of the data, met by every reading method (alone and after other tokens)
+    from props.c10 import ref_enc
+    for _ in range(80 if tier == 'quick' else 1500):
+        code = rng.choice(list(GC))
+        v = rng.randrange(3, 300) * (rng.choice([1, -1]) if code in ('se', 'sie') else 1)
+        w = ref_enc(code, v)
+        pre = rand_bits(rng, rng.choice([0, 0, 1, 3, 8]))
+        bits = pre + w[:len(w) - rng.choice([1, 1, 1, 2, 3])]
+        cls = rng.choice(['ConstBitStream', 'BitStream'])
+        how = rng.choice(['readlist', 'readlist', 'peeklist', 'read', 'peek'])
+        if how in ('readlist', 'peeklist'):
+            toks = ([{'k': 'bits', 'n': len(pre)}] if pre and rng.random() < 0.6 else []) + [{'c': code}]
+            first = {'op': how, 'toks': toks}; pos = 0 if len(toks) == 2 else len(pre)
+        else:
+            first = {'op': how, 'tok': {'c': code}}; pos = len(pre)
+        yield {'op': 'history', 'cls': cls, 'bits': bits, 'pos': pos,
+               'steps': [first] + [gen_step(rng, max(len(bits), 4), cls == 'BitStream') for _ in range(rng.randrange(0, 4))]}
+
 def kind(c): return c['cls']
 
 def canon_val(tok, v):
